@@ -60,3 +60,49 @@ contract(f"{CK}.restore", setup=setup_restore,
     ensures={"every_state_field_assigned_from_checkpoint": post_restored,
              "config_loaded_then_instantiated_once": lambda c, q: z3.BoolVal(len(eff(c, "omegaconf.load")) == 1 and len(eff(c, "instantiate")) == 1),
              "template_policy_none_stays_none": lambda c, q: z3.BoolVal(c.result.attrs["policy"] is None)})
+
+# ---------------- has_full_config (both directions) and load_checkpoint (C10)
+def setup_hfc(I):
+    vimod = I.load_module("mdpax.solvers.value_iteration").globals
+    # four independent yes/no facts about the object graph: problem.config present / has _target_, solver config present / has _target_
+    flags = {k: z3.Bool(k) for k in ("problem_has_config", "problem_target_set", "solver_has_config", "solver_target_set")}
+    return Ctx(self=None, _args=[], flags=flags, vimod=vimod, I=I)
+def hfc_scenarios():
+    out = []
+    import itertools
+    for bits in itertools.product([0, 1, 2], [0, 1, 2]):        # 0: attribute absent / None, 1: config without _target_ (None), 2: config with _target_
+        def setup(I, bits=bits):
+            vimod = I.load_module("mdpax.solvers.value_iteration").globals
+            def cfg(b, lab): return None if b == 0 else Obj("Cfg", {"_target_": None if b == 1 else "some.Target"}, label=lab)
+            prob = Obj("ProblemStub", {"name": "stub"}, label="problem")
+            if bits[0] != 0: prob.attrs["config"] = cfg(bits[0], "problem_config")
+            elif True: prob.attrs["config"] = None
+            s = Obj(vimod["ValueIteration"], {"problem": prob, "config": cfg(bits[1], "config")}, label="solver")
+            return Ctx(self=s, _args=[], want=bits == (2, 2))
+        out.append((f"p{bits[0]}s{bits[1]}.", setup))
+    return out
+def ret_hfc(c):
+    s = c["self"]; pc = s.attrs["problem"].attrs.get("config") if isinstance(s.attrs.get("problem"), Obj) else None; sc = s.attrs.get("config")
+    return bool(isinstance(pc, Obj) and pc.attrs.get("_target_") is not None and isinstance(sc, Obj) and sc.attrs.get("_target_") is not None)
+contract(f"{CK}.has_full_config", scenarios=hfc_scenarios(), returns=ret_hfc,
+    ensures={"true_iff_both_configs_have_targets": lambda c, q: z3.BoolVal(bool(c.result) == c.want)})
+
+def setup_load(I):
+    vimod = I.load_module("mdpax.solvers.value_iteration").globals; cls = vimod["ValueIteration"]
+    I.ghost["effects"] = []
+    s = Obj(cls, {"values": ("own", "values"), "policy": ("own", "policy"), "iteration": z3.Int("own_iteration"), "checkpoint_dir": I.PathV("own_dir")}, label="hand_built_solver")
+    given = z3.Bool("step_given"); step = z3.Int("step_arg"); I.assume(step >= 1)
+    use_step = I.truth(given)
+    return Ctx(self=s, _args=[I.PathV("other_dir")], _kwargs=({"step": step} if use_step else {}), I=I, use_step=use_step, step=step)
+def post_load(c, q):
+    s = c.self; v = s.attrs["values"]; it = s.attrs["iteration"]; pol = s.attrs["policy"]
+    ok = isinstance(v, tuple) and v[0] == "restored" and v[3] == ("values",) and isinstance(it, tuple) and it[3] == ("info", "iteration") and isinstance(pol, tuple) and pol[3] == ("policy",)
+    news = eff(c, "cm.new"); rest = eff(c, "cm.restore")
+    ok = ok and len(news) == 1 and "other_dir" in news[0][1][0] and len(rest) == 1 and "other_dir" in rest[0][1][0]
+    if c.use_step: return z3.And(z3.BoolVal(bool(ok)), toz3(rest[0][1][1]) == c.step)
+    return z3.BoolVal(bool(ok))
+contract(f"{CK}.load_checkpoint", setup=setup_load,
+    raises=[("ValueError", lambda c, q: z3.BoolVal(len(eff(c, "cm.restore")) == 0 and not isinstance(c.self.attrs["values"], tuple) or c.self.attrs["values"][0] == "own"))],
+    ensures={"every_state_field_assigned_from_the_given_directory_at_the_chosen_step": post_load,
+             "own_checkpoint_dir_kept": lambda c, q: z3.BoolVal(c.self.attrs["checkpoint_dir"].s == "own_dir"),
+             "no_save_no_mkdir": lambda c, q: z3.BoolVal(not eff(c, "cm.save") and not eff(c, "mkdir") and not eff(c, "omegaconf.save"))})
